@@ -545,7 +545,8 @@ pub fn temp_targets(text: &str) -> Option<Vec<String>> {
     let mut v = vec![];
     for it in items {
         if let Item::Dir { head, args, .. } = it {
-            if head.kind == Kind::Temp && !args.is_empty() {
+            // a temp directive naming a txtpp file is a directive error, not a temp target
+            if head.kind == Kind::Temp && !args.is_empty() && !is_source_name(file_name(&args[0])) {
                 v.push(args[0].clone());
             }
         }
